@@ -203,14 +203,16 @@ def impl_number(v):
 
 # ------------------------------------------------------------------------------------------------ positions
 
-def positions(rng, T, val, single):
+def positions(rng, T, val, single, star=False):
     """(expression, expected value) pairs: the text T (value val, a non-negative integer) in every position a name may occur in."""
     P = T if single else '(%s)' % T
+    # `T * 2` with a bound name that continues T with `*` reads that longer name (longest match): parenthesise T there
+    PM = '(%s)' % T if star else P
     out = [
         ('sum([%s])' % T, val), ('if %s = %s then %s else 0' % (T, T, T), val), ('for i in [1] return %s' % T, [val]),
         ('some i in [1] satisfies %s = %s' % (T, T), True), ('every i in [1] satisfies %s >= 0' % T, True),
         ('[%s][1]' % T, val), ('[7][%s = %s]' % (T, T), 7), ('{k: %s}.k' % T, val), ('%s between 0 and 99999999999999' % T, True),
-        ('%s in [0..99999999999999]' % T, True), ('(%s)' % T, val), ('- %s' % P, -val), ('1 + %s' % P, 1 + val), ('%s * 2' % P, 2 * val),
+        ('%s in [0..99999999999999]' % T, True), ('(%s)' % T, val), ('- %s' % P, -val), ('1 + %s' % P, 1 + val), ('%s * 2' % PM, 2 * val),
         ('if true then %s else %s' % (T, T), val), ('[1,2,3][item = 2 + 0 * %s]' % P, 2), ('max(0, %s)' % T, val),
         ('{r: %s, s: r + 1}.s' % T, val + 1),
     ]
@@ -316,14 +318,15 @@ def run(ctx):
                 ctx.violation('`%s` with %s evaluates to %s, the bound values give %s' % (c['text'], c['env'], got, ev),
                               {'text': c['text'], 'bound': c['scope'], 'values': c['env']}, impl=g, model=ev)
                 continue
-            if isinstance(ev, int) and ev >= 0 and len(good_texts) < ctx.pick(120, 2000) and rng.random() < 0.3:
+            if isinstance(ev, int) and 0 <= ev <= 99999999999999 and len(good_texts) < ctx.pick(120, 2000) and rng.random() < 0.3:
                 good_texts.append((c, ev, len(mt) == 1))
         if len(ctx.samples) < 5 and len(mt) > 1 and any(' ' in t or any(s in t for s in SYMS) for k, t in mt if k == 'name'):
             ctx.sample({'bound': want_keys, 'text': c['text'], 'tokens': mt, 'value': g.get('v')})
     # every expression position
     pos_cases = []
     for c, ev, single in good_texts:
-        for e, want in positions(rng, c['text'], ev, single):
+        star = any('*' in parts for parts in c['scope'])
+        for e, want in positions(rng, c['text'], ev, single, star):
             pos_cases.append({'bind': c['bind'], 'e': e, 'want': want, 'what': 'position', 'bound': c['scope']})
     for e, want, what in binder_cases(rng):
         pos_cases.append({'bind': [], 'e': e, 'want': want, 'what': what, 'bound': []})
